@@ -7,7 +7,36 @@ use crate::vx_lex::*;
 //@]
 use crate::data::{token::Token, *};
 
-pub fn unexpected_token_or_eof_to_kiki_err(unexpected: Option<&Token>, src: &str) -> KikiErr {
+pub fn unexpected_token_or_eof_to_kiki_err(unexpected: Option<&Token>, src: &str) -> /*@[*/(r: /*@]*/KikiErr/*@[*/)/*@]*/
+    //@[ C09 C07 unexpected_token_or_eof_to_kiki_err: byte span and exact source text of the given token; empty span at the end for None
+    requires
+        unexpected matches Some(t) ==> exists|j: int| #[trigger] stok_in_src(src@, tok_view(*t), j),
+    ensures
+        match unexpected {
+            Some(t) => r matches KikiErr::Parse(a, text, b)
+                && a.0 == stok_start(tok_view(*t)) && text@ == stok_text(tok_view(*t)) && b.0 == a.0 + byte_len(stok_text(tok_view(*t)))
+                && (forall|j: int| #[trigger] stok_in_src(src@, tok_view(*t), j) ==> b.0 == byte_off(src@, j + stok_text(tok_view(*t)).len())),
+            None => r matches KikiErr::Parse(a, text, b) && a.0 == src.spec_bytes().len() && b.0 == a.0 && text@ == Seq::<char>::empty(),
+        },
+    //@]
+{
+    //@[ proof
+    proof {
+        axiom_str_len_fits_usize(src);
+        if let Some(t) = unexpected {
+            let tv = tok_view(*t);
+            let j = choose|j: int| stok_in_src(src@, tv, j);
+            let n = stok_text(tv).len() as int;
+            lemma_utf8_slice(src, j, j + n);
+            lemma_off_subrange(src@, j, j + n, n);
+            assert(src@.subrange(j, j + n).len() == n);
+            assert forall|x: &str| #[trigger] x.spec_bytes() == src.spec_bytes().subrange(byte_off(src@, j), byte_off(src@, j + n)) implies x@ == stok_text(tv) by {
+                lemma_view_of_slice(x, src@.subrange(j, j + n));
+            }
+            assert forall|j2: int| #[trigger] stok_in_src(src@, tv, j2) implies j2 == j by { lemma_off_inj(src@, j, j2); }
+        }
+    }
+    //@]
     let Some(token) = unexpected else {
         return get_unexpected_eof_err(src);
     };
@@ -18,12 +47,27 @@ pub fn unexpected_token_or_eof_to_kiki_err(unexpected: Option<&Token>, src: &str
     KikiErr::Parse(start, content, end)
 }
 
-fn get_unexpected_eof_err(src: &str) -> KikiErr {
+fn get_unexpected_eof_err(src: &str) -> /*@[*/(r: /*@]*/KikiErr/*@[*/)/*@]*/
+    //@[ C09 get_unexpected_eof_err: the empty span at the end of the source
+    ensures r matches KikiErr::Parse(a, text, b) && a.0 == src.spec_bytes().len() && b.0 == a.0 && text@ == Seq::<char>::empty(),
+    //@]
+{
+    //@[ proof
+    proof { reveal_strlit(""); assert(""@ =~= Seq::<char>::empty()); axiom_str_len_fits_usize(src); }
+    //@]
     KikiErr::Parse(ByteIndex(src.len()), "".to_string(), ByteIndex(src.len()))
 }
 
 impl Token {
-    fn start(&self) -> ByteIndex {
+    fn start(&self) -> /*@[*/(r: /*@]*/ByteIndex/*@[*/)/*@]*/
+        //@[ C09 C07 Token::start
+        requires stok_start(tok_view(*self)) >= 0,
+        ensures r.0 == stok_start(tok_view(*self)),
+        //@]
+    {
+        //@[ proof
+        proof { lemma_lit_len("$"); reveal_strlit("$"); reveal_with_fuel(byte_off, 3); }
+        //@]
         match self {
             Token::Underscore(start) => *start,
             Token::Ident(ident) => ident.position,
@@ -45,7 +89,18 @@ impl Token {
         }
     }
 
-    fn content_len(&self) -> usize {
+    fn content_len(&self) -> /*@[*/(r: /*@]*/usize/*@[*/)/*@]*/
+        //@[ C09 C07 Token::content_len: the UTF-8 length of the token text
+        requires byte_len(stok_text(tok_view(*self))) <= usize::MAX,
+        ensures r == byte_len(stok_text(tok_view(*self))),
+        //@]
+    {
+        //@[ proof
+        proof {
+            assert forall|x: &str| #[trigger] x.spec_bytes().len() == byte_len(x@) by { lemma_lit_len(x); }
+            if let Token::TerminalIdent(ident) = self { lemma_byte_len_concat("$"@, ident.name@); }
+        }
+        //@]
         match self {
             Token::Underscore(_) => "_".len(),
             Token::Ident(ident) => ident.name.len(),
